@@ -532,7 +532,8 @@ theorem defaultOf_ne (S : Schema) (f : FieldD) (hn : noneOkB f = false) :
   simp only [Bool.or_eq_false_iff] at hn
   have hk := hn.2
   unfold defaultOf
-  cases hd : f.defKind <;> simp [defaultOfKind, fresh] <;> simp [hd] at hk
+  cases hd : f.defKind <;> simp [defaultOfKind, fresh]
+  simp [hd] at hk
 
 /-- the attribute read of a singular field whose default is not None yields an element -/
 theorem materialized_item (s : Bool) (S : Schema) (f : FieldD) (hw : wfFieldB S.length f = true)
@@ -541,7 +542,8 @@ theorem materialized_item (s : Bool) (S : Schema) (f : FieldD) (hw : wfFieldB S.
   have ht := materialize_typed s S f hw v h
   have hd := defaultOf_ne S f hn
   apply slot_item s S f _ ht _ _ hs
-  · cases v <;> simp [materialize] <;> exact hd.1
+  · cases v <;> simp [materialize]
+    exact hd.1
   · cases v <;> simp [materialize]
     · exact hd.2
     · rw [slotTypedB] at h; rw [h] at hn; simp at hn
@@ -1346,5 +1348,151 @@ theorem dumpVal_total (S : Schema) (hS : WfSchemaT S) (m : Val) (h : msgTypedB t
     obtain ⟨b, hb⟩ := dumpSlots_total S hS (fieldsOf S c) cur sl d.fields 0 h.2
       (by intro j; rw [fieldsOf_some S c d hd]; simp) (wfSchema_class S hS c d hd)
     rw [dumpVal, hb]; exact ⟨_, rfl⟩
+
+/-! ### the encoder's domain is included in the Python typing -/
+
+theorem scalarTyped_weaken (t : PType) (v : Val) (h : scalarTypedB true t v = true) :
+    scalarTypedB false t v = true := by
+  cases v <;> simp [scalarTypedB] at h ⊢ <;> simp [h]
+
+theorem leafTyped_weaken (f : FieldD) (v : Val) (h : leafTypedB true f v = true) :
+    leafTypedB false f v = true := by
+  cases v <;> simp [leafTypedB] at h ⊢
+  case ts => exact h.1
+  case dur => exact h.1
+  all_goals
+    (cases he : elemTy f with
+     | none => rw [he] at h; simp at h
+     | some t => rw [he] at h; exact scalarTyped_weaken t _ h)
+
+mutual
+theorem slotTyped_weaken (S : Schema) (f : FieldD) :
+    ∀ v : Val, slotTypedB true S f v = true → slotTypedB false S f v = true
+  | .ph, _ => slotTypedB_ph _ _ _
+  | .none, h => by rw [slotTypedB] at h ⊢; exact h
+  | .list xs, h => by
+    rw [slotTypedB] at h ⊢
+    simp only [Bool.and_eq_true] at h ⊢
+    exact ⟨h.1, itemsTyped_weaken S f xs h.2⟩
+  | .dict ks vs, h => by
+    rw [slotTypedB] at h ⊢
+    simp only [Bool.and_eq_true] at h ⊢
+    exact ⟨⟨h.1.1, itemsTyped_weaken S _ ks h.1.2⟩, itemsTyped_weaken S _ vs h.2⟩
+  | .msg c sl ow unk cur, h => by
+    rw [slotTypedB] at h ⊢
+    simp only [Bool.and_eq_true] at h ⊢
+    refine ⟨h.1, ?_⟩
+    cases hd : S[c]? with
+    | none => rw [hd] at h; simp at h
+    | some d =>
+      rw [hd] at h
+      simp only [Bool.and_eq_true] at h ⊢
+      exact ⟨h.2.1, slotsTyped_weaken S d.fields sl h.2.2⟩
+  | .int _, h | .bool _, h | .f32 _, h | .f64 _, h | .str _, h | .byt _, h | .ts _, h | .dur _, h => by
+    simp only [slotTypedB, Bool.and_eq_true] at h ⊢
+    exact ⟨h.1, leafTyped_weaken f _ h.2⟩
+
+theorem itemsTyped_weaken (S : Schema) (f : FieldD) :
+    ∀ xs : List Val, itemsTypedB true S f xs = true → itemsTypedB false S f xs = true
+  | [], _ => by rw [itemsTypedB]
+  | .msg c sl ow unk cur :: xs, h => by
+    rw [itemsTypedB] at h ⊢
+    simp only [Bool.and_eq_true] at h ⊢
+    refine ⟨⟨h.1.1, ?_⟩, itemsTyped_weaken S f xs h.2⟩
+    cases hd : S[c]? with
+    | none => rw [hd] at h; simp at h
+    | some d =>
+      rw [hd] at h
+      simp only [Bool.and_eq_true] at h ⊢
+      exact ⟨h.1.2.1, slotsTyped_weaken S d.fields sl h.1.2.2⟩
+  | .ph :: xs, h | .none :: xs, h | .list _ :: xs, h | .dict _ _ :: xs, h => by
+    simp [itemsTypedB, leafTypedB] at h
+  | .int _ :: xs, h | .bool _ :: xs, h | .f32 _ :: xs, h | .f64 _ :: xs, h | .str _ :: xs, h
+  | .byt _ :: xs, h | .ts _ :: xs, h | .dur _ :: xs, h => by
+    simp only [itemsTypedB, Bool.and_eq_true] at h ⊢
+    exact ⟨leafTyped_weaken f _ h.1, itemsTyped_weaken S f xs h.2⟩
+
+theorem slotsTyped_weaken (S : Schema) :
+    ∀ (fs : List FieldD) (sl : List Val), slotsTypedB true S fs sl = true → slotsTypedB false S fs sl = true
+  | [], [], _ => by rw [slotsTypedB]
+  | f :: fs, v :: vs, h => by
+    rw [slotsTypedB] at h ⊢
+    simp only [Bool.and_eq_true] at h ⊢
+    exact ⟨slotTyped_weaken S f v h.1, slotsTyped_weaken S fs vs h.2⟩
+  | [], _ :: _, h => by simp [slotsTypedB] at h
+  | _ :: _, [], h => by simp [slotsTypedB] at h
+end
+
+theorem msgTyped_weaken (S : Schema) (m : Val) (h : msgTypedB true S m = true) : msgTypedB false S m = true := by
+  cases m <;> simp [msgTypedB] at h
+  rename_i c sl ow unk cur
+  unfold msgTypedB
+  cases hd : S[c]? with
+  | none => rw [hd] at h; simp at h
+  | some d =>
+    rw [hd] at h
+    simp only [hd, Bool.and_eq_true] at h ⊢
+    exact ⟨h.1, slotsTyped_weaken S d.fields sl h.2⟩
+
+/-! ### the statements -/
+
+/-- the raw slot value `v` of field `f` has the Python type the field declares -/
+def PyTyped (S : Schema) (f : FieldD) (v : Val) : Prop := slotTypedB false S f v = true
+
+/-- every field of the message (and, recursively, of every message it contains) holds a
+    value of its declared Python type -/
+def MsgTyped (S : Schema) (m : Val) : Prop := msgTypedB false S m = true
+
+/-- … and every leaf lies in the domain of the encoder -/
+def MsgEnc (S : Schema) (m : Val) : Prop := msgTypedB true S m = true
+
+instance (S : Schema) (f : FieldD) (v : Val) : Decidable (PyTyped S f v) := by unfold PyTyped; infer_instance
+instance (S : Schema) (m : Val) : Decidable (MsgTyped S m) := by unfold MsgTyped; infer_instance
+instance (S : Schema) (m : Val) : Decidable (MsgEnc S m) := by unfold MsgEnc; infer_instance
+
+theorem slotsTyped_iff (s : Bool) (S : Schema) :
+    ∀ (fs : List FieldD) (sl : List Val), slotsTypedB s S fs sl = true ↔
+      sl.length = fs.length ∧ ∀ i f, fs[i]? = some f → slotTypedB s S f (sl.getD i .ph) = true
+  | [], [] => by simp [slotsTypedB]
+  | [], _ :: _ => by simp [slotsTypedB]
+  | _ :: _, [] => by simp [slotsTypedB]
+  | f0 :: fs, v :: vs => by
+    rw [slotsTypedB, Bool.and_eq_true, slotsTyped_iff s S fs vs]
+    constructor
+    · rintro ⟨h0, hl, hr⟩
+      refine ⟨by simp [hl], ?_⟩
+      intro i f hf
+      cases i with
+      | zero => simp at hf; subst hf; simpa using h0
+      | succ i => simp at hf; simpa using hr i f hf
+    · rintro ⟨hl, hr⟩
+      refine ⟨by simpa using hr 0 f0 rfl, by simpa using hl, ?_⟩
+      intro i f hf
+      simpa using hr (i + 1) f (by simpa using hf)
+
+/-- what `MsgTyped` says, unfolded one level -/
+theorem msgTyped_iff (S : Schema) (c : Nat) (sl : List Val) (ow : Bool) (unk : Bytes) (cur : List (Option Nat)) :
+    MsgTyped S (.msg c sl ow unk cur) ↔
+      ∃ d, S[c]? = some d ∧ cur.length = d.nGroups ∧ sl.length = d.fields.length
+        ∧ ∀ i f, d.fields[i]? = some f → PyTyped S f (sl.getD i .ph) := by
+  unfold MsgTyped msgTypedB PyTyped
+  cases hd : S[c]? with
+  | none => simp [hd]
+  | some d => simp [hd, slotsTyped_iff]
+
+/-- **C17**: whatever `parse` returns is a typed message — for every list of numbers, bytes or not -/
+theorem parse_msgTyped (S : Schema) (hS : WfSchemaT S) (c : Nat) (bs : Bytes) (m : Val)
+    (h : parse S c bs = .ok m) : MsgTyped S m :=
+  parse_typed false S hS c bs m (fun hs => absurd hs (by decide)) h
+
+/-- for an input made of bytes the result lies in the encoder's domain … -/
+theorem parse_msgEnc (S : Schema) (hS : WfSchemaT S) (c : Nat) (bs : Bytes) (m : Val) (hb : WfBytes bs)
+    (h : parse S c bs = .ok m) : MsgEnc S m :=
+  parse_typed true S hS c bs m (fun _ => hb) h
+
+/-- … and can be encoded again -/
+theorem parse_reencodes (S : Schema) (hS : WfSchemaT S) (c : Nat) (bs : Bytes) (m : Val) (hb : WfBytes bs)
+    (h : parse S c bs = .ok m) : ∃ bs', dumpVal S m = .ok bs' :=
+  dumpVal_total S hS m (parse_msgEnc S hS c bs m hb h)
 
 end Bp
